@@ -50,16 +50,22 @@ def _situation(src, n, procs, lean):
     adapter.plant_fsm_state(core, F.OPERATION)
     core.state_modes.master_identifier = core.local_identifier
     # the first process may have been run with extra arguments before (they are kept for the next start)
-    past = src.pick('past_of_the_first_process', ['nothing', 'run-with-extra-arguments', 'start-given-up'])
+    past = src.pick('past_of_the_first_process', ['nothing', 'run-with-extra-arguments', 'start-given-up',
+                                                   'exited-before'])
     if past == 'run-with-extra-arguments':
         plist[0][0].extra_args = '-x 1'
     # the first process may carry the state forced by an earlier start that was given up (nothing received since)
     if past == 'start-given-up':
-        from supervisor.states import ProcessStates as PS
         from rig.stubs import CLOCK
         proc0 = plist[0][0]
         if proc0.info_map:
             core.listener.force_process_state(proc0, '', CLOCK[0].t, PS.FATAL, 'No resource available')
+    # the first process may have run to completion before (the resting state of a wait_exit program is EXITED)
+    if past == 'exited-before':
+        proc0 = plist[0][0]
+        for ident in list(proc0.info_map):
+            for st in (PS.STARTING, PS.RUNNING, PS.EXITED):
+                core.process_event(ident, 'app0', 't0', st, expected=True)
     core.rpc_handler.out.clear()
     return core, app, plist
 
